@@ -737,6 +737,12 @@ class GenFuncHolder(object):
     """Plain functions have no log; the holder keeps one for them."""
 
 
+def _reprfails(base):
+    def bad(self):
+        raise RuntimeError("this element cannot be printed (yet)")
+    return type(base.__name__ + "ReprFails", (base,), {"__repr__": bad, "__str__": bad})
+
+
 def make_el(kind):
     """-> (element, log getter)."""
     if kind == "none":
@@ -774,6 +780,9 @@ def make_el(kind):
            "run_plain_len0": _falsy(RunPlain, "len0"), "fcr_boolfalse": _falsy(FCR, "bool"),
            "callobj_len0": _falsy(CallObj, "len0"), "fc_len0": _falsy(FC, "len0"),
            "srcobj_boolfalse": _falsy(SrcObj, "bool"), "srciterobj": SrcIterObj,
+           "callobj_reprfails": _reprfails(CallObj), "srcobj_reprfails": _reprfails(SrcObj),
+           "fc_reprfails": _reprfails(FC), "run_plain_reprfails": _reprfails(RunPlain),
+           "fr_reprfails": _reprfails(FR),
            "fill_into_len0": _falsy(FI, "len0")}[kind]
     el = cls()
     return el, lambda: el.log
@@ -785,7 +794,8 @@ KINDS = ["callobj", "srcobj", "function", "genfunction", "list", "range", "custo
          "noncallable", "none", "int", "str",
          "custom_len0", "custom_boolfalse", "run_plain_len0", "fcr_boolfalse", "callobj_len0",
          "fc_len0", "srcobj_boolfalse", "fill_into_len0", "run_break_false", "run_break_none",
-         "srciterobj"]
+         "srciterobj", "callobj_reprfails", "srcobj_reprfails", "fc_reprfails",
+         "run_plain_reprfails", "fr_reprfails"]
 ABSENT = "<absent>"
 NAMES = {
     "Call": [ABSENT, "__call__", "my_call", "fill", "attr5", "nope"],
@@ -1116,6 +1126,8 @@ def run_adapter(r, obs):
     el, getlog = make_el(kind)
     twin, twinlog = make_el(kind)
     ref = expect(adapter, el, r)
+    if kind.endswith("_reprfails") and ref is None:
+        return      # a rejection prints the element: only the accepted combinations are judged
     where = "%s:%s:%s" % (adapter, kind, name_class(el, r))
     n_raise_before = len(obs.raise_log)
     try:
@@ -1231,3 +1243,4 @@ RULE += (' Added: Filter with a user subclass of Selector that overrides __call_
 RULE += (' Added to the adapter matrix: an element that is both callable and iterable.')
 RULE += (' Added: the bare accumulator as the first branch of a Split whose later branches change '
          'the contexts they receive in place.')
+RULE += (' Added: valid elements whose repr() / str() fails (the text of an element is needed for an error message only).')
